@@ -40,6 +40,18 @@ type vfC12Store struct {
 	sgbucket.DataStore
 	mu   sync.Mutex
 	hook func(key string)
+	// writeHook, when set, runs once before the next WriteCas of writeKey: the window between a
+	// request's read of a principal document and its CAS write.
+	writeKey  string
+	writeHook func()
+}
+
+func (s *vfC12Store) WriteCas(ctx context.Context, k string, exp uint32, cas uint64, v interface{}, opt sgbucket.WriteOptions) (uint64, error) {
+	if h := s.writeHook; h != nil && k == s.writeKey {
+		s.writeHook = nil // one shot
+		h()
+	}
+	return s.DataStore.WriteCas(ctx, k, exp, cas, v, opt)
 }
 
 func (s *vfC12Store) Delete(ctx context.Context, key string) error {
@@ -69,6 +81,7 @@ type vfC12User struct {
 	pw          string
 	prev        []string // every earlier password of this name, all incarnations
 	prevOldInc  []string // passwords of deleted incarnations
+	hashCost    int      // bcrypt cost of the stored hash (0: no hash)
 	epoch       int      // bumped by every SetPassword and every (re-)creation: the code's session UUID
 	change      int      // bumped when the credential really changed: new password value or re-creation
 	incarnation int
@@ -90,6 +103,8 @@ type vfC12World struct {
 	ctx                                         context.Context
 	auth                                        *Authenticator
 	ds                                          sgbucket.DataStore
+	store                                       *vfC12Store
+	allowEmpty                                  bool // configuration dimension: the database allows empty passwords (allow_empty_password)
 	users                                       []*vfC12User
 	sessions                                    []*vfC12Session
 	ops                                         []string
@@ -149,6 +164,22 @@ func vfC12Variants(pw string) []string {
 	return res
 }
 
+// drawPassword: a new password as the admin API would accept it; the empty one only when the
+// configuration allows empty passwords.
+func (w *vfC12World) drawPassword(label string) string {
+	if w.allowEmpty && rapid.IntRange(0, 3).Draw(w.rt, label+"Empty") == 0 {
+		return ""
+	}
+	return vfC12GenPassword().Draw(w.rt, label)
+}
+
+func (w *vfC12World) costOf(pw string) int {
+	if pw == "" {
+		return 0
+	}
+	return w.auth.BcryptCost
+}
+
 func (w *vfC12World) getUser(u *vfC12User) User {
 	user, err := w.auth.GetUser(u.name)
 	w.harness(err, "GetUser")
@@ -174,14 +205,14 @@ func (w *vfC12World) pickUser(wantExisting int) *vfC12User {
 
 func (w *vfC12World) createUser() {
 	u := w.pickUser(0)
-	pw := vfC12GenPassword().Draw(w.rt, "pw")
+	pw := w.drawPassword("pw")
 	if len(u.prev) > 0 && rapid.Bool().Draw(w.rt, "reuseOld") {
 		pw = rapid.SampledFrom(u.prev).Draw(w.rt, "oldpw")
 	}
 	user, err := w.auth.NewUser(u.name, pw, base.Set{})
 	w.harness(err, "NewUser")
 	w.harness(w.auth.Save(user), "Save new user")
-	u.exists, u.disabled, u.pw = true, false, pw
+	u.exists, u.disabled, u.pw, u.hashCost = true, false, pw, w.costOf(pw)
 	u.epoch++
 	u.change++
 	u.incarnation++
@@ -203,7 +234,7 @@ func (w *vfC12World) setPassword() {
 	user := w.getUser(u)
 	pw := u.pw
 	if rapid.IntRange(0, 3).Draw(w.rt, "same") > 0 {
-		pw = vfC12GenPassword().Draw(w.rt, "pw")
+		pw = w.drawPassword("pw")
 		if len(u.prev) > 0 && rapid.IntRange(0, 3).Draw(w.rt, "backToOld") == 0 {
 			pw = rapid.SampledFrom(u.prev).Draw(w.rt, "oldpw")
 		}
@@ -211,6 +242,7 @@ func (w *vfC12World) setPassword() {
 	w.harness(user.SetPassword(pw), "SetPassword")
 	w.harness(w.auth.Save(user), "Save after SetPassword")
 	u.epoch++
+	u.hashCost = w.costOf(pw)
 	if pw != u.pw {
 		u.change++
 		u.prev = append(u.prev, u.pw)
@@ -283,6 +315,121 @@ func (w *vfC12World) deleteSession() {
 	s.alive = false
 }
 
+// checkPassword authenticates u with attempt and applies the model. With an empty current password
+// (only reachable when empty passwords are allowed) the outcome of the empty attempt is left open: the
+// statement says both "only with the current password" and "empty passwords never authenticate".
+func (w *vfC12World) checkPassword(u *vfC12User, attempt string) bool {
+	user, err := w.auth.AuthenticateUser(u.name, attempt)
+	w.harness(err, "AuthenticateUser")
+	ok := user != nil
+	open := u.exists && !u.disabled && u.pw == "" && attempt == ""
+	want := u.exists && !u.disabled && u.pw != "" && attempt == u.pw
+	w.logf("authPassword(%s,%q)=%v", u.label, attempt, ok)
+	if ok && !want && !open {
+		why := "it is not the current password"
+		switch {
+		case !u.exists:
+			why = "the user does not exist"
+		case u.disabled:
+			why = "the user is disabled"
+		}
+		w.violation("user %s authenticated with password %q although %s (current password %q)", u.name, attempt, why, u.pw)
+	}
+	if !ok && want {
+		w.violation("user %s exists, is enabled and presented the current password %q but was not authenticated", u.name, attempt)
+	}
+	if ok && user.Name() != u.name {
+		w.violation("authenticating as %s returned user %q", u.name, user.Name())
+	}
+	if u.exists && attempt != u.pw {
+		for _, p := range u.prevOldInc {
+			if p == attempt {
+				w.oldCredAfterRecreate = true
+			}
+		}
+	}
+	if ok && w.auth.bcryptCostChanged && u.hashCost != 0 && u.hashCost != w.auth.BcryptCost {
+		// the login re-hashed the password at the configured cost: same password, new session UUID
+		u.epoch++
+		u.hashCost = w.auth.BcryptCost
+		w.classes["login_rehashed"]++
+	}
+	return ok
+}
+
+// reconfigureCost: the operator changes the configured bcrypt cost (kept at the cheap end).
+func (w *vfC12World) reconfigureCost() {
+	if w.auth.BcryptCost == bcrypt.MinCost {
+		w.auth.BcryptCost = bcrypt.MinCost + 1
+	} else {
+		w.auth.BcryptCost = bcrypt.MinCost
+	}
+	w.auth.bcryptCostChanged = true // what SetBcryptCost records
+	w.logf("bcryptCost=%d", w.auth.BcryptCost)
+}
+
+// loginDuringAdminChange: a correct password login whose stored hash has another cost than configured
+// (so the login writes an upgraded hash) while an administrator's password change of the same user
+// commits between the login's read of the user document and its CAS write.
+func (w *vfC12World) loginDuringAdminChange() {
+	var cands []*vfC12User
+	for _, u := range w.users {
+		if u.exists && !u.disabled && u.pw != "" {
+			cands = append(cands, u)
+		}
+	}
+	if len(cands) == 0 {
+		w.rt.Skip("no user that can log in")
+	}
+	u := rapid.SampledFrom(cands).Draw(w.rt, "user")
+	if !w.auth.bcryptCostChanged || u.hashCost == w.auth.BcryptCost {
+		w.reconfigureCost()
+	}
+	newPw := w.drawPassword("adminPw")
+	if rapid.IntRange(0, 4).Draw(w.rt, "adminSame") == 0 {
+		newPw = u.pw
+	}
+	old := u.pw
+	fired := false
+	w.store.writeKey = w.auth.DocIDForUser(u.name)
+	w.store.writeHook = func() {
+		fired = true
+		user, err := w.auth.GetUser(u.name)
+		if err != nil || user == nil {
+			panic(fmt.Sprintf("harness: admin GetUser in the window: %v", err))
+		}
+		if err := user.SetPassword(newPw); err != nil {
+			panic(fmt.Sprintf("harness: admin SetPassword in the window: %v", err))
+		}
+		if err := w.auth.Save(user); err != nil {
+			panic(fmt.Sprintf("harness: admin Save in the window: %v", err))
+		}
+	}
+	w.logf("login(%s,%q) with adminSetPassword(%q) before its hash upgrade is written", u.label, old, newPw)
+	user, err := w.auth.AuthenticateUser(u.name, old)
+	w.store.writeHook = nil
+	w.harness(err, "AuthenticateUser")
+	if user == nil {
+		w.violation("user %s presented the password that was current when the request read the user (%q) and was refused", u.name, old)
+	}
+	if !fired {
+		w.rt.Fatalf("harness: the login did not write an upgraded hash (case: %s)", w.render())
+	}
+	// the administrator's change is the last committed credential change
+	u.epoch += 2 // the admin's SetPassword, and possibly the login's own re-hash before or after it
+	u.hashCost = w.costOf(newPw)
+	if newPw != old {
+		u.change++
+		u.prev = append(u.prev, old)
+		u.pw = newPw
+	}
+	w.classes["login_during_admin_change"]++
+	w.checkPassword(u, newPw)
+	if newPw != old {
+		w.checkPassword(u, old)
+	}
+}
+
 func (w *vfC12World) authPassword() {
 	u := w.pickUser(-1)
 	if !u.exists && rapid.IntRange(0, 4).Draw(w.rt, "insistMissing") > 0 {
@@ -312,34 +459,7 @@ func (w *vfC12World) authPassword() {
 		o := rapid.SampledFrom(w.users).Draw(w.rt, "other")
 		attempt = o.pw
 	}
-	user, err := w.auth.AuthenticateUser(u.name, attempt)
-	w.harness(err, "AuthenticateUser")
-	ok := user != nil
-	want := u.exists && !u.disabled && u.pw != "" && attempt == u.pw
-	w.logf("authPassword(%s,%q)=%v", u.label, attempt, ok)
-	if ok && !want {
-		why := "it is not the current password"
-		switch {
-		case !u.exists:
-			why = "the user does not exist"
-		case u.disabled:
-			why = "the user is disabled"
-		}
-		w.violation("user %s authenticated with password %q although %s (current password %q)", u.name, attempt, why, u.pw)
-	}
-	if !ok && want {
-		w.violation("user %s exists, is enabled and presented the current password %q but was not authenticated", u.name, attempt)
-	}
-	if ok && user.Name() != u.name {
-		w.violation("authenticating as %s returned user %q", u.name, user.Name())
-	}
-	if u.exists && attempt != u.pw {
-		for _, p := range u.prevOldInc {
-			if p == attempt {
-				w.oldCredAfterRecreate = true
-			}
-		}
-	}
+	ok := w.checkPassword(u, attempt)
 	w.classes["pw_"+kind+map[bool]string{true: "_accepted", false: "_refused"}[ok]]++
 }
 
@@ -445,7 +565,8 @@ func TestVerif_C12_Model(t *testing.T) {
 	ctx := base.TestCtx(t)
 	bucket := base.GetTestBucket(t)
 	defer bucket.Close(ctx)
-	ds := bucket.GetSingleDataStore()
+	store := &vfC12Store{DataStore: bucket.GetSingleDataStore()}
+	var ds sgbucket.DataStore = store
 	opts := DefaultAuthenticatorOptions(ctx)
 	opts.BcryptCost = bcrypt.MinCost
 	auth := NewAuthenticator(ds, nil, opts)
@@ -474,7 +595,12 @@ func TestVerif_C12_Model(t *testing.T) {
 
 	rapid.Check(t, func(rt *rapid.T) {
 		n := vfC12CaseSeq.Add(1)
-		w := &vfC12World{rt: rt, test: "Model", ctx: ctx, auth: auth, ds: ds, classes: map[string]int{}, excluded: map[string]int{}}
+		// one authenticator per case: the bcrypt cost is reconfigured by generated actions
+		auth := NewAuthenticator(ds, nil, opts)
+		store.writeHook = nil
+		w := &vfC12World{rt: rt, test: "Model", ctx: ctx, auth: auth, ds: ds, store: store, classes: map[string]int{}, excluded: map[string]int{}}
+		w.allowEmpty = rapid.Bool().Draw(rt, "allowEmptyPassword")
+		w.logf("allow_empty_password=%v", w.allowEmpty)
 		// three names that a sloppy lookup would confuse
 		for _, label := range []string{"alice", "Alice", "bob"} {
 			w.users = append(w.users, &vfC12User{name: fmt.Sprintf("c%d_%s", n, label), label: label})
@@ -484,18 +610,20 @@ func TestVerif_C12_Model(t *testing.T) {
 				w.createUser()
 			}
 			rt.Repeat(map[string]func(*rapid.T){
-				"createUser":     func(*rapid.T) { w.createUser() },
-				"deleteUser":     func(*rapid.T) { w.deleteUser() },
-				"setPassword":    func(*rapid.T) { w.setPassword() },
-				"setDisabled":    func(*rapid.T) { w.setDisabled() },
-				"createSession":  func(*rapid.T) { w.createSession() },
-				"createSession2": func(*rapid.T) { w.createSession() },
-				"setPassword2":   func(*rapid.T) { w.setPassword() },
-				"deleteSession":  func(*rapid.T) { w.deleteSession() },
-				"authPassword":   func(*rapid.T) { w.authPassword() },
-				"authPassword2":  func(*rapid.T) { w.authPassword() },
-				"authSession":    func(*rapid.T) { w.authSession() },
-				"authSession2":   func(*rapid.T) { w.authSession() },
+				"createUser":             func(*rapid.T) { w.createUser() },
+				"deleteUser":             func(*rapid.T) { w.deleteUser() },
+				"setPassword":            func(*rapid.T) { w.setPassword() },
+				"setDisabled":            func(*rapid.T) { w.setDisabled() },
+				"createSession":          func(*rapid.T) { w.createSession() },
+				"createSession2":         func(*rapid.T) { w.createSession() },
+				"setPassword2":           func(*rapid.T) { w.setPassword() },
+				"deleteSession":          func(*rapid.T) { w.deleteSession() },
+				"authPassword":           func(*rapid.T) { w.authPassword() },
+				"authPassword2":          func(*rapid.T) { w.authPassword() },
+				"authSession":            func(*rapid.T) { w.authSession() },
+				"authSession2":           func(*rapid.T) { w.authSession() },
+				"reconfigureCost":        func(*rapid.T) { w.reconfigureCost() },
+				"loginDuringAdminChange": func(*rapid.T) { w.loginDuringAdminChange() },
 			})
 		})
 		var extra []string
